@@ -1,1 +1,79 @@
-//! Harness contracts for C18.
+//! Harness contracts for C18: `VerifierLib` forwards 1:1 to the verifier library functions
+//! (DESIGN Appendix A), so that a contract error / host trap / panic inside them is observed
+//! as `Err` through `envx::call`.
+
+pub mod verifier_lib {
+    use soroban_sdk::{contract, contractimpl, Bytes, BytesN, Env};
+    use stellar_accounts::verifiers::{
+        ed25519,
+        utils::{base64_url_encode, extract_from_bytes},
+        webauthn::{self, WebAuthnSigData},
+    };
+
+    /// size of the destination buffer handed to `base64_url_encode`; pre-filled with `B64_SENTINEL`
+    pub const B64_DST: usize = 512;
+    pub const B64_SENTINEL: u8 = 0xAA;
+    /// largest source the wrapper accepts (4*ceil(n/3) <= B64_DST)
+    pub const B64_MAX_SRC: u32 = 384;
+
+    #[contract]
+    pub struct VerifierLib;
+
+    fn extract_n<const N: usize>(e: &Env, data: &Bytes, kind: u32, a: u32, b: u32) -> Option<Bytes> {
+        let r: Option<BytesN<N>> = match kind {
+            0 => extract_from_bytes(e, data, a..b),
+            1 => extract_from_bytes(e, data, a..=b),
+            2 => extract_from_bytes(e, data, a..),
+            3 => extract_from_bytes(e, data, ..b),
+            4 => extract_from_bytes(e, data, ..=b),
+            _ => extract_from_bytes(e, data, ..),
+        };
+        r.map(|x| Bytes::from_array(e, &x.to_array()))
+    }
+
+    #[contractimpl]
+    impl VerifierLib {
+        /// `webauthn::verify` with the library's own `WebAuthnSigData` contract type
+        pub fn webauthn_verify(e: &Env, payload: Bytes, pub_key: BytesN<65>, sig_data: WebAuthnSigData) -> bool {
+            webauthn::verify(e, &payload, &pub_key, &sig_data)
+        }
+
+        pub fn ed25519_verify(e: &Env, payload: Bytes, public_key: BytesN<32>, signature: BytesN<64>) -> bool {
+            ed25519::verify(e, &payload, &public_key, &signature)
+        }
+
+        /// Returns the WHOLE destination buffer (sentinel-filled before the call) so that the
+        /// caller sees both the encoded prefix and any byte written beyond it.
+        pub fn b64(e: &Env, src: Bytes) -> Bytes {
+            if src.len() > B64_MAX_SRC {
+                panic!("harness: source too long for the fixed destination");
+            }
+            let mut s = [0u8; B64_MAX_SRC as usize];
+            let n = src.len() as usize;
+            src.copy_into_slice(&mut s[..n]);
+            let mut dst = [B64_SENTINEL; B64_DST];
+            base64_url_encode(&mut dst, &s[..n]);
+            Bytes::from_array(e, &dst)
+        }
+
+        /// exactly the call `validate_challenge` makes: 32-byte source, 43-byte destination
+        pub fn b64_32(e: &Env, src: BytesN<32>) -> Bytes {
+            let mut dst = [0u8; 43];
+            base64_url_encode(&mut dst, &src.to_array());
+            Bytes::from_array(e, &dst)
+        }
+
+        /// `extract_from_bytes::<N>(data, range)`; kind 0 `a..b`, 1 `a..=b`, 2 `a..`, 3 `..b`, 4 `..=b`, 5 `..`
+        pub fn extract(e: &Env, data: Bytes, n: u32, kind: u32, a: u32, b: u32) -> Option<Bytes> {
+            match n {
+                1 => extract_n::<1>(e, &data, kind, a, b),
+                2 => extract_n::<2>(e, &data, kind, a, b),
+                4 => extract_n::<4>(e, &data, kind, a, b),
+                32 => extract_n::<32>(e, &data, kind, a, b),
+                64 => extract_n::<64>(e, &data, kind, a, b),
+                65 => extract_n::<65>(e, &data, kind, a, b),
+                _ => panic!("harness: unsupported N"),
+            }
+        }
+    }
+}
